@@ -835,6 +835,29 @@ OPERAND_TYPES = ('int', 'uint', 'long', 'ulong')            # types an operator 
 CAST_TYPES = OPERAND_TYPES + ('char', 'uchar', 'short', 'bool')
 
 
+def _offsetof_form(P):
+    """how include/stddef.h (the header the compiler installs for its own use) defines offsetof: ('null-member-address', text) for the expression form
+    ((size_t)&(((type *)0)->member)), ('builtin', text) if it is handed to a builtin, ('none', why) if the header does not define it, ('unknown', why) otherwise"""
+    import os
+    import re
+    path = os.path.join(P.repo, 'include', 'stddef.h')
+    if not os.path.exists(path):
+        return ('none', 'the repository has no include/stddef.h')
+    text = open(path, errors='replace').read().replace('\\\n', ' ')
+    m = re.search(r'^[ \t]*#[ \t]*define[ \t]+offsetof\(([^)]*)\)(.*)$', text, re.M)
+    if not m:
+        return ('none', 'include/stddef.h does not define offsetof')
+    params = [x.strip() for x in m.group(1).split(',')]
+    body = re.sub(r'\s+', '', m.group(2))
+    if len(params) == 2:
+        t, mb = params
+        if body in ('((size_t)&(((%s*)0)->%s))' % (t, mb), '((unsignedlong)&(((%s*)0)->%s))' % (t, mb), '((size_t)&((%s*)0)->%s)' % (t, mb)):
+            return ('null-member-address', m.group(0).strip())
+    if '__builtin_offsetof' in body:
+        return ('builtin', m.group(0).strip())
+    return ('unknown', 'the definition of offsetof in include/stddef.h has a form this rule does not know: %s' % m.group(0).strip())
+
+
 def r1316_constexpr(P, rep, rule='R13.16'):
     rep.rule(rule, 'the constant-expression evaluators answer every operator C11 6.6 allows in a constant expression with a value, not with "not a compile-time constant" / '
                    '"invalid initializer": the integer operators of 6.6p6 on integer constants of several types (non-zero divisors), `?:`, casts; the arithmetic operators on floating '
@@ -959,4 +982,37 @@ def r1316_constexpr(P, rep, rule='R13.16'):
             want_true('%s:%s:%s' % (PU, ev, k), lambda ctx, k=k: [tree(k, 'int', num(6))], 'the constant expression `%s 6`' % k[3:])
         want_true('%s:%s:ND_COND' % (PU, ev), lambda ctx: [tree('ND_COND', 'int', cond=num(1), then=num(6), els=num(3))], 'the constant expression `1 ? 6 : 3`')
         want_true('%s:%s:ND_NUM' % (PU, ev), lambda ctx: [num(6)], 'an integer constant')
+    # offsetof (7.19p3: "expands to an integer constant expression").  The <stddef.h> the compiler ships defines it as an expression of the language
+    # (no builtin): the address of a member of an object at the null pointer constant, converted to size_t.  That form -- and its array-element variant
+    # offsetof(T, a[i]) -- has to be evaluated by the integer evaluators and recognised by the predicates like any other integer constant expression.
+    form = _offsetof_form(P)
+    rep.extra['offsetof'] = form[1]
+    if form[0] == 'unknown':
+        rep.undecided(rule, 'include/stddef.h:offsetof:definition', form[1], where='include/stddef.h:1')
+    elif form[0] == 'null-member-address':
+        ptr = lambda t: tys.make('ptr-' + t)
+        mem = lambda t: Obj('Member', lazy=True, label='member', fields={'offset': 4, 'ty': tys.make(t), 'is_bitfield': 0})
+        obj0 = lambda: tree('ND_DEREF', 'struct', tree('ND_CAST', ptr('struct'), num(0)))
+        off_forms = [
+            ('offsetof(T,m)', lambda: tree('ND_CAST', 'ulong', tree('ND_ADDR', ptr('int'), tree('ND_MEMBER', 'int', obj0(), member=mem('int'))))),
+            ('offsetof(T,m.n)', lambda: tree('ND_CAST', 'ulong', tree('ND_ADDR', ptr('int'), tree('ND_MEMBER', 'int', tree('ND_MEMBER', 'struct', obj0(), member=mem('struct')), member=mem('int'))))),
+            ('offsetof(T,a[1])', lambda: tree('ND_CAST', 'ulong', tree('ND_ADDR', ptr('int'), tree('ND_DEREF', 'int', tree('ND_ADD', ptr('int'), tree('ND_MEMBER', 'array-int', obj0(), member=mem('array-int')),
+                                                                                                             tree('ND_MUL', 'long', num(1, 'long'), num(4, 'long'))))))),
+        ]
+        why = '7.19p3: offsetof(type, member-designator) expands to an integer constant expression of type size_t; include/stddef.h defines it as ((size_t)&(((type *)0)->member))'
+        for name, mk in off_forms:
+            for ev in ints:
+                _judge(R, it, '%s:%s:%s' % (PU, ev, name), ev, lambda ctx, mk=mk: [mk()], 'the integer constant expression `%s` (as <stddef.h> of this compiler expands it)' % name, why)
+            for ev in preds:
+                key = '%s:%s:%s' % (PU, ev, name)
+                res = _judge(R, it, key, ev, lambda ctx, mk=mk: [mk()], 'the integer constant expression `%s` (as <stddef.h> of this compiler expands it)' % name, why)
+                for ctx, out in res or []:
+                    if out[0] == 'ret' and _determined(ctx):
+                        val = out[1]
+                        val = it.settle(val) if isinstance(val, View) else val
+                        if isinstance(val, (int, bool)) and not val:
+                            R.note(key + '<-not-recognised', False,
+                                   '%s() does not recognise `%s`, as the compiler\'s own <stddef.h> expands it, as a constant expression (%s): an array whose bound is offsetof(...) becomes a '
+                                   'variable-length array -- at file scope, as a static object or in a type name, where no code computes its size -- and a valid program is miscompiled, '
+                                   'rejected or crashes the compiler' % (ev, name, why))
     R.flush(rep, rule, where)
